@@ -125,17 +125,89 @@ Proof. exact callbacks_read_before_reply. Qed.
 Print Assumptions C06_read_before_reply.
 
 (* the sequential history the harness plays, with platform commands in between *)
-Theorem C06_one_reply_each_conversation : forall its,
+Theorem C06_one_reply_each_conversation : forall its, no_asks its = true ->
   srcs (replies (run_items its)) = filter answered (items_msgs its) /\ Forall reply_ok (replies (run_items its)).
 Proof. exact one_reply_each_items. Qed.
 Print Assumptions C06_one_reply_each_conversation.
 
 (* ... and EVERY frame it makes the server write, in order: the reply of each answered message, the
    echo of each terminal-sent 0x8003, each platform command issued once the session is joined *)
-Theorem C06_conversation_frames : forall its,
+Theorem C06_conversation_frames : forall its, asks_ok its = true ->
   map wtag (writes (run_items its)) = items_writes None its.
 Proof. exact conversation_writes_run. Qed.
 Print Assumptions C06_conversation_frames.
+
+(* ... with commands left outstanding and answered by the terminal ([IAsk]): every answered message
+   gets its reply or is handed to the caller that waits for it *)
+Theorem C06_outcomes_conversation : forall its, asks_ok its = true ->
+  outcomes (run_items its) = filter answered (items_msgs its).
+Proof. exact outcomes_items. Qed.
+Print Assumptions C06_outcomes_conversation.
+
+(* read before write also for the Handler's read callback (OReadH), not only the TerminalEventer's *)
+Theorem C06_read_before_reply_handler : forall ms s, no_absorb s = true ->
+  exists queued, filter answered (read_srcs_h (trace (init ms) s)) = srcs (replies (trace (init ms) s)) ++ queued.
+Proof. exact callbacks_read_before_reply_h. Qed.
+Print Assumptions C06_read_before_reply_handler.
+
+(* ANY NUMBER OF CONCURRENT CONNECTIONS.  The server's reply path is the list of its connections'
+   states; a global history is any list of (connection, move) pairs - every interleaving of every
+   number of connections.  Connection i ends in the state, and shows the observations, of its OWN
+   moves run alone: nothing another connection does reaches it (each accepted connection has its own
+   handler instances, channels and serial counter: service.go Run, tied by
+   Gen/TablesOk_reply.v tables_handles_per_connection).  Every statement above therefore holds for each
+   connection of a concurrent server; three of them spelled out. *)
+Theorem C06_connections_independent : forall s cs i,
+  nth_error (gfinal cs s) i = option_map (fun c => final c (proj_moves i s)) (nth_error cs i) /\
+  proj_obs i (gtrace cs s) = match nth_error cs i with Some c => trace c (proj_moves i s) | None => [] end.
+Proof. exact connections_independent. Qed.
+Print Assumptions C06_connections_independent.
+
+Theorem C06_serials_concurrent : forall mss s i ms, nth_error mss i = Some ms ->
+  let t := proj_obs i (gtrace (map init mss) s) in
+  map w_ps (writes t) = map serial_no (seq 0 (length (writes t))).
+Proof. exact serials_concurrent. Qed.
+Print Assumptions C06_serials_concurrent.
+
+Theorem C06_outcomes_concurrent : forall mss s i ms, nth_error mss i = Some ms ->
+  exists later, outcomes (proj_obs i (gtrace (map init mss) s)) ++ later = filter answered ms.
+Proof. exact outcomes_concurrent. Qed.
+Print Assumptions C06_outcomes_concurrent.
+
+Theorem C06_one_reply_each_concurrent : forall mss s i ms, nth_error mss i = Some ms ->
+  no_absorb (proj_moves i s) = true ->
+  (exists c, nth_error (gfinal (map init mss) s) i = Some c /\ drained c = true) ->
+  srcs (replies (proj_obs i (gtrace (map init mss) s))) = filter answered ms /\
+  Forall reply_ok (replies (proj_obs i (gtrace (map init mss) s))).
+Proof. exact one_reply_each_concurrent. Qed.
+Print Assumptions C06_one_reply_each_concurrent.
+
+(* WHERE THE CODE DOES NOT DO WHAT THE PROPERTY SAYS (known_findings.json; the model carries the code's
+   behaviour, the theorems above exclude exactly these classes or count the hand-over as an outcome).
+
+   C06/1003-absorbed-no-reply.  The property claims a reply for every complete 0x1003 (HasReply is true
+   and, with no command outstanding, the server does send an empty 0x8001).  While a 0x9003 query is
+   outstanding the writer hands the 0x1003 to the waiting SendActiveMessage caller and writes nothing:
+   a complete history in which an answered message gets no reply.  What is proved instead:
+   "reply OR hand-over, exactly once, in order" (the C06_outcomes theorems), and one reply each when no
+   0x1003 is involved or nothing is absorbed. *)
+Theorem C06_refuted_1003_absorbed :
+  exists ms s, length ms = 1%nat /\ Forall dmsg_wf ms /\ filter answered ms = ms /\
+    drained (final (init ms) s) = true /\
+    replies (trace (init ms) s) = [] /\ absorbed (trace (init ms) s) = ms.
+Proof. exact refuted_1003_absorbed. Qed.
+Print Assumptions C06_refuted_1003_absorbed.
+
+(* C06/0801-short-body.  "... or the multimedia ID (multimedia response)": an 0x0801 whose body is
+   shorter than 36 bytes is answered with the id of the PREVIOUS upload of the connection (7 here; 0 on
+   a fresh connection), not with the id in its own first four bytes (9); [reply_ok] and
+   C06_correlation_decoded claim the body only under [body_wf] (36 bytes and more) *)
+Theorem C06_refuted_0801_short_body :
+  map w_body (replies (run (dm ex_0801_a ++ dm ex_0801_b))) = [[0; 0; 0; 7]; [0; 0; 0; 7]] /\
+  map w_body (replies (run (dm ex_0801_b))) = [[0; 0; 0; 0]] /\
+  map (fun d => (sub (m_body (d_m d)) 0 4, body_wf (d_m d))) (dm ex_0801_b) = [([0; 0; 0; 9], false)].
+Proof. exact refuted_0801_short_body. Qed.
+Print Assumptions C06_refuted_0801_short_body.
 
 (* non-vacuity: every message list has a complete history without absorption; every decodable frame
    gives a well-formed delivered message; a concrete conversation (heartbeat serial 65535,
@@ -154,3 +226,23 @@ Example C06_conversation :
     [126; 128; 1; 0; 5; 1; 56; 0; 19; 128; 0; 0; 2; 0; 10; 1; 2; 0; 37; 126] ] /\
   length ex_msgs = 5%nat /\ Forall dmsg_wf ex_msgs.
 Proof. exact example_conversation. Qed.
+(* an absorbing conversation: heartbeat, 0x9003 left outstanding, the terminal's 0x1003 - two frames
+   (reply to the heartbeat, the command), the 0x1003 handed over *)
+Example C06_ask_conversation :
+  match dm ex_hb, dm ex_1003 with
+  | [a], [b] =>
+    let its := [IMsg a; IAsk 0x9003 [] b] in
+    asks_ok its = true /\ map fst (map wtag (writes (run_items its))) = [WReply; WCmd] /\
+    filter answered (items_msgs its) = [a; b] /\ outcomes (run_items its) = [a; b] /\
+    absorbed (run_items its) = [b]
+  | _, _ => False
+  end.
+Proof. exact example_ask_conversation. Qed.
+(* the non-default branches of body_wf / std_body: well-formed 0x0801, 0x1212 and a 0x1003 *)
+Example C06_conversation2 :
+  let ms := dm ex_0801_a ++ dm ex_1212 ++ dm ex_1003 in
+  map (fun d => body_wf (d_m d)) ms = [true; true; true] /\
+  map (fun w => (w_rid w, w_ps w, w_body w)) (writes (run ms)) =
+  [ (0x8800, 0, [0; 0; 0; 7]); (0x9212, 1, [3; 97; 46; 98; 0; 0; 0]); (0x8001, 2, []) ] /\
+  map (fun d => std_body (d_m d)) ms = [[0; 0; 0; 7]; [3; 97; 46; 98; 0; 0; 0]; []].
+Proof. exact example_conversation2. Qed.
